@@ -104,8 +104,21 @@ def cells_source(c, name=None):
         lines.append("    " + tick)
     if c.get("form") == "deflines":
         # one term per line, so that the line of every call is known:  a<i> = <term>
+        # guard 1: the line sits in try/finally; guard 2: in try/except with a clause that never matches
+        guards = c.get("guards") or [0] * len(c["terms"])
         for i, t in enumerate(c["terms"]):
-            lines.append("    a%d = %s" % (i, render(t)))
+            g = guards[i] if i < len(guards) else 0
+            if g:
+                lines.append("    try:")
+                lines.append("        a%d = %s" % (i, render(t)))
+                if g == 1:
+                    lines.append("    finally:")
+                    lines.append("        _ = 0")
+                else:
+                    lines.append("    except StopAsyncIteration:")
+                    lines.append("        a%d = 0" % i)
+            else:
+                lines.append("    a%d = %s" % (i, render(t)))
         lines.append("    return " + (" + ".join("a%d" % i for i in range(len(c["terms"]))) or "0"))
         return "\n".join(lines) + "\n"
     lines.append("    return " + body)
@@ -115,6 +128,23 @@ def cells_source(c, name=None):
 def first_term_line(c):
     """1-based line of term 0 in the deflines layout"""
     return 2 + (1 if c.get("doc") else 0) + (1 if c.get("tick", True) else 0)
+
+
+def term_lines(c):
+    """1-based source lines of every term of the deflines layout, plus the return line (last element)"""
+    guards = c.get("guards") or [0] * len(c["terms"])
+    line = first_term_line(c)
+    out = []
+    for i in range(len(c["terms"])):
+        g = guards[i] if i < len(guards) else 0
+        if g:
+            out.append(line + 1)
+            line += 4
+        else:
+            out.append(line)
+            line += 1
+    out.append(line)
+    return out
 
 
 def sum_expr(terms):
